@@ -537,6 +537,20 @@ VERIF_SUB_W(schmid_value, 0.2) {
     c.tag("schmid.single_family");
     checkSchmidValues(c, d, 0, dir);
   }
+  // family index >= number of systems of that family (HCP basal family, 3 systems, registered as
+  // 4th family): with the recorded defect C56.schmid.value_per_system this is an out-of-bounds
+  // write, so the class is only generated once that key is no longer a known finding
+  if (verif::Global::get().known_keys.count("C56.schmid.value_per_system") == 0 &&
+      c.chance(1, 3, "late_small_family")) {
+    const IV d4 = genDir(c, true);
+    SSD h(CrystalStructure::HCP);
+    addFamily(h, Sys{{1, 1, -2, 0}, {1, -1, 0, 0}});
+    addFamily(h, Sys{{1, 1, -2, 0}, {1, -1, 0, 1}});
+    addFamily(h, Sys{{-2, 1, 1, 3}, {1, -1, 0, 1}});
+    addFamily(h, Sys{{-2, 1, 1, 0}, {0, 0, 0, 1}});
+    c.tag("schmid.late_small_family");
+    for (std::size_t fi = 0; fi < 4; ++fi) checkSchmidValues(c, h, fi, d4);
+  }
 }
 
 // must-throw class: plane . Burgers != 0
